@@ -254,7 +254,24 @@ class LifecycleScenario(BaseScenario):
             fresh.close()
         if rawgeoh5.file_sha256(handle.path) != before_bytes:
             raise Violation("C11", "stale_write", "calls on references of the closed workspace changed the file", {})
-        # (v) re-opening the same object restores full access to the same content
+        # (v) re-opening the same object restores full access to the same content -- the content of the FILE: in half of the
+        # histories another workspace object edits a data type in the file while this one is closed
+        edited = None
+        if random.Random(H(sim.seed, "elsewhere")).random() < 0.5:
+            import uuid as _uuid
+
+            cands = sorted(u for u, r in model.recs.items() if r["kind"] == "data" and not r.get("concat"))
+            if cands:
+                other = Workspace(handle.path, mode="r+")
+                try:
+                    ent = other.get_entity(_uuid.UUID(cands[0].strip("{}")))[0]
+                    if ent is not None:
+                        ent.entity_type.description = "edited elsewhere"
+                        edited = cands[0]
+                        sim.probe("edited_elsewhere_while_closed")
+                    del ent
+                finally:
+                    other.close()
         try:
             ws.open()
         except Exception as err:  # pylint: disable=broad-except
@@ -266,6 +283,15 @@ class LifecycleScenario(BaseScenario):
         diffs = compare.diff_trees(model.recs, live, "MODEL", "LIVE")
         if diffs:
             raise Violation("C11", "reopen_content", diffs[0], {"field": _field(diffs[0])})
+        if edited is not None:
+            import uuid as _uuid
+
+            ent = ws.get_entity(_uuid.UUID(edited.strip("{}")))[0]
+            got = getattr(getattr(ent, "entity_type", None), "description", None)
+            del ent
+            if got != "edited elsewhere":
+                raise Violation("C11", "reopen_content", f"the re-opened workspace shows type description {got!r}; the file holds 'edited elsewhere' "
+                                "(written by another workspace object while this one was closed)", {"field": "type.description"})
         world.drop_all()
         # the next operation succeeds (bounded liveness: one step)
         from geoh5py.groups import ContainerGroup
